@@ -1,29 +1,227 @@
-"""Real-valued proxies (exact-real stand-in for Python floats) - see DESIGN 3.1.
-Filled in for C13; until then any float arithmetic on a proxy is Unmodelled."""
-from .core import Unmodelled
+"""Real-valued proxies: the exact-real stand-in for Python floats (DESIGN 3.1).
+
+A SymReal wraps a z3 Real term.  Float constants met in the code are idealised
+to the nearest rational with denominator <= 10**12 (so the literal 1e-6 is
+10**-6).  Two models:
+  * exact  (default): every operation is exact real arithmetic;
+  * rounded (Explorer.rounding = True): every operation result is multiplied by
+    (1 + d) with a fresh |d| <= 2**-53 - the standard model of IEEE-754 double
+    round-to-nearest in the normal range (a sound over-approximation).
+round() yields a fresh integer r with |r - x| <= 1/2.
+"""
+import fractions
+import numbers
+
+import z3
+
+from . import core
+from .core import SymBool, SymInt, Unmodelled
+
+EPS = fractions.Fraction(1, 2 ** 53)
+
+
+def _ex():
+    return core.cur()
+
+
+def const(x):
+    if isinstance(x, bool):
+        x = int(x)
+    if isinstance(x, int):
+        return z3.RealVal(x)
+    if isinstance(x, float):
+        if x != x or x in (float('inf'), float('-inf')):
+            raise Unmodelled('non-finite float in real arithmetic')
+        f = fractions.Fraction(x).limit_denominator(10 ** 12)
+        return z3.RealVal('%d/%d' % (f.numerator, f.denominator))
+    if isinstance(x, fractions.Fraction):
+        return z3.RealVal('%d/%d' % (x.numerator, x.denominator))
+    return None
+
+
+def to_expr(x):
+    if isinstance(x, SymReal):
+        return x.e
+    if isinstance(x, SymInt):
+        if x.w:
+            raise Unmodelled('bit-vector integer in real arithmetic (run the job with width=0)')
+        return z3.ToReal(x.e)
+    if isinstance(x, SymBool):
+        return z3.If(x.e, z3.RealVal(1), z3.RealVal(0))
+    return const(x)
+
+
+def to_real(x):
+    e = to_expr(x)
+    if e is None:
+        raise Unmodelled('cannot convert %r to a real' % (x,))
+    return SymReal(e)
+
+
+def _round(e):
+    """Apply the rounding model to an operation result."""
+    ex = core.CUR
+    if ex is None or not getattr(ex, 'rounding', False):
+        return e
+    name = ex.fresh_name('delta')
+    d = ex.declare(name, 'real', lambda: z3.Real(name))
+    ex.assume(z3.And(d >= -z3.RealVal('1/9007199254740992'), d <= z3.RealVal('1/9007199254740992')))
+    return e * (1 + d)
 
 
 class SymReal:
-    pass
+    __slots__ = ('e',)
+
+    def __init__(self, e):
+        self.e = e
+
+    def _bin(self, o, f, swap=False):
+        oe = to_expr(o)
+        if oe is None:
+            return NotImplemented
+        a, b = (oe, self.e) if swap else (self.e, oe)
+        return SymReal(_round(f(a, b)))
+
+    def __add__(self, o):
+        return self._bin(o, lambda a, b: a + b)
+
+    def __radd__(self, o):
+        return self._bin(o, lambda a, b: a + b, True)
+
+    def __sub__(self, o):
+        return self._bin(o, lambda a, b: a - b)
+
+    def __rsub__(self, o):
+        return self._bin(o, lambda a, b: a - b, True)
+
+    def __mul__(self, o):
+        return self._bin(o, lambda a, b: a * b)
+
+    def __rmul__(self, o):
+        return self._bin(o, lambda a, b: a * b, True)
+
+    def _div(self, o, swap):
+        oe = to_expr(o)
+        if oe is None:
+            return NotImplemented
+        num, den = (oe, self.e) if swap else (self.e, oe)
+        if bool(SymBool(den == 0)):
+            raise ZeroDivisionError('float division by zero')
+        return SymReal(_round(num / den))
+
+    def __truediv__(self, o):
+        return self._div(o, False)
+
+    def __rtruediv__(self, o):
+        return self._div(o, True)
+
+    def __neg__(self):
+        return SymReal(-self.e)
+
+    def __pos__(self):
+        return self
+
+    def __abs__(self):
+        return SymReal(z3.If(self.e >= 0, self.e, -self.e))
+
+    def _cmp(self, o, f):
+        oe = to_expr(o)
+        if oe is None:
+            return NotImplemented
+        return SymBool(f(self.e, oe))
+
+    def __lt__(self, o):
+        return self._cmp(o, lambda a, b: a < b)
+
+    def __le__(self, o):
+        return self._cmp(o, lambda a, b: a <= b)
+
+    def __gt__(self, o):
+        return self._cmp(o, lambda a, b: a > b)
+
+    def __ge__(self, o):
+        return self._cmp(o, lambda a, b: a >= b)
+
+    def __eq__(self, o):
+        r = self._cmp(o, lambda a, b: a == b)
+        return False if r is NotImplemented else r
+
+    def __ne__(self, o):
+        r = self._cmp(o, lambda a, b: a != b)
+        return True if r is NotImplemented else r
+
+    __hash__ = None
+
+    def __bool__(self):
+        return bool(self != 0)
+
+    def __round__(self, ndigits=None):
+        if ndigits is not None:
+            raise Unmodelled('round(x, ndigits) on a real proxy')
+        ex = _ex()
+        name = ex.fresh_name('round')
+        r = ex.declare(name, 'int', lambda: z3.Int(name))
+        half = z3.RealVal('1/2')
+        ex.assume(z3.And(z3.ToReal(r) - half <= self.e, self.e <= z3.ToReal(r) + half))
+        return SymInt(r, -(2 ** 200), 2 ** 200, 0)
+
+    def __trunc__(self):
+        ex = _ex()
+        name = ex.fresh_name('trunc')
+        r = ex.declare(name, 'int', lambda: z3.Int(name))
+        # truncation toward zero
+        ex.assume(z3.If(self.e >= 0,
+                        z3.And(z3.ToReal(r) <= self.e, self.e < z3.ToReal(r) + 1),
+                        z3.And(z3.ToReal(r) >= self.e, self.e > z3.ToReal(r) - 1)))
+        return SymInt(r, -(2 ** 200), 2 ** 200, 0)
+
+    __int__ = __trunc__
+
+    def __float__(self):
+        raise Unmodelled('a real proxy reached a C boundary (float())')
+
+    def __format__(self, spec):
+        from . import tokens
+        return tokens.format_real(self, spec)
+
+    def __repr__(self):
+        from . import tokens
+        return tokens.format_real(self, '')
+
+    __str__ = __repr__
+
+    def is_integer(self):
+        raise Unmodelled('is_integer on a real proxy')
+
+
+numbers.Real.register(SymReal)
 
 
 def int_truediv(a, b):
-    raise Unmodelled('true division on an integer proxy')
+    return to_real(a) / b
 
 
 def int_rtruediv(a, b):
-    raise Unmodelled('true division on an integer proxy')
+    oe = to_expr(b)
+    if oe is None:
+        return NotImplemented
+    return SymReal(oe) / a
+
+
+def int_mul_float(a, f):
+    return to_real(a) * f
 
 
 def cmp_int_other(a, o, op):
-    if isinstance(o, float):
-        raise Unmodelled('comparison of an integer proxy with a float')
+    if isinstance(o, (float, SymReal, fractions.Fraction)):
+        ra = to_real(a)
+        return {'<': ra.__lt__, '<=': ra.__le__, '>': ra.__gt__, '>=': ra.__ge__,
+                '==': ra.__eq__, '!=': ra.__ne__}[op](o)
     return NotImplemented
 
 
-def to_real(v):
-    raise Unmodelled('int->real conversion')
-
-
 def norm_real(v, ev):
-    raise Unmodelled('real observable')
+    if ev is None:
+        return ('sym', str(v.e))
+    r = ev(v.e)
+    return float(r)
